@@ -742,7 +742,7 @@ fn synth_mode(out: &mut Out, rng: &mut Rng, thorough: bool) {
 		let leafset = ["dense", "sparse", "only-last", "runs", "all"][si % 5];
 		let s = Synth::new(&kit, rng, *n_out, *n_ker, leafset);
 		let src = s.src();
-		let reps = if si < n_small { if thorough { 5 } else { 2 } } else { 2 };
+		let reps = if si < n_small { if thorough { 5 } else { 1 } } else if thorough { 2 } else { 1 };
 		for rep in 0..reps {
 			rcv += 1;
 			let hs = if si >= n_small {
@@ -894,7 +894,7 @@ fn chain_mode(out: &mut Out, rng: &mut Rng, thorough: bool) {
 		};
 		let mut rcv = 0u64;
 		for hs in height_sets {
-			let reps = if hs.0 == 9 { 1 } else if thorough { 4 } else { 2 };
+			let reps = if hs.0 == 9 { 1 } else if thorough { 4 } else { 1 };
 			for _ in 0..reps {
 				rcv += 1;
 				let heights = [hs.0, hs.1, hs.2, hs.3];
